@@ -304,6 +304,17 @@ void profile_clone(const json& plan, Ctx& ctx) {
 			}
 			// observation of the source starts only now: several getters used above fill caches or convert strips
 			Obs sBefore = sameModel ? Obs() : observe(*S, ctx);
+			// the node the source hangs off, found by scanning every node's child list (independent of GetParentNode)
+			auto parentByScan = [](NifFile& f, NiObject* child) -> NiNode* {
+				uint32_t id = f.GetBlockID(child);
+				auto& h = f.GetHeader();
+				for (uint32_t i = 0; i < h.GetNumBlocks(); i++)
+					if (auto nd = h.GetBlock<NiNode>(i))
+						for (auto& cr : nd->childRefs)
+							if (cr.index == id) return nd;
+				return nullptr;
+			};
+			NiNode* srcParent = parentByScan(sameModel ? *D : *S, src);
 			setStage("Clone:call");
 			NiShape* c = D->CloneShape(src, newName, sameModel ? nullptr : S.get());
 			if (!c) ctx.viol("clone-returned-null", where);
@@ -316,6 +327,15 @@ void profile_clone(const json& plan, Ctx& ctx) {
 			if (sameModel) src = nullptr; // blocks may have moved
 			ShapeSnap cs = snapShape(*D, c);
 			auto fail = [&](const std::string& cls, const std::string& m) { ctx.viol(cls, where + " [" + srcSnap.type + " '" + srcSnap.name + "' -> '" + newName + "']: " + m); };
+			// the clone is part of the destination's scene graph (a block no node refers to is dropped by the next default save):
+			// within one model it hangs off the source's parent, in another model off the root
+			{
+				NiNode* cp = parentByScan(*D, c);
+				if (sameModel) {
+					if (srcParent && cp != srcParent) fail("clone:not-attached", std::string("the source hangs off node '") + srcParent->name.get() + "', the clone off " + (cp ? "'" + cp->name.get() + "'" : std::string("no node")));
+				}
+				else if (D->GetRootNode() && cp != D->GetRootNode()) fail("clone:not-attached", std::string("the clone hangs off ") + (cp ? "'" + cp->name.get() + "'" : std::string("no node")) + ", not off the destination's root");
+			}
 			size_t at = 0;
 			if (cs.nv != srcSnap.nv) fail("clone:numVertices", std::to_string(cs.nv) + " vs " + std::to_string(srcSnap.nv));
 			if (!sameV3(cs.verts, srcSnap.verts, 0, &at)) fail("clone:vertices", "positions differ at " + std::to_string((long) at));
